@@ -227,8 +227,16 @@ def c13(run):
             c2 = copy.deepcopy(c)
             c2["in"]["nopin"] = True
             nopin.append(c2)
-    cases = cases + nopin
+    # replay-only variant (same prediction): every trusted peer is disconnected when the call is made (it is dialled for it)
+    offline = []
+    for c in cases:
+        if rnd.random() < (0.2 if quick else 1.0):
+            c2 = copy.deepcopy(c)
+            c2["in"]["offline"] = True
+            offline.append(c2)
+    cases = cases + nopin + offline
     run.cov["nopin_variants"] = len(nopin)
+    run.cov["offline_variants"] = len(offline)
     for i, c in enumerate(cases):
         c["id"] = i
     run.cov["rows_total"], run.cov["rows_executed"] = total, len(cases)
